@@ -1,7 +1,7 @@
 #!/usr/bin/env python3
 """False-alarm test: apply each behaviour-preserving patch of /verif/harmless/<k>/patch.diff to a scratch
 worktree and run the checks of the properties it could touch; every check must stay OK.
-  tools/run_harmless.py [k ...]
+  tools/run_harmless.py [--jobs=N] [k ...]
 """
 import os, subprocess, sys, time
 V = os.path.dirname(os.path.dirname(os.path.abspath(__file__)))
@@ -18,6 +18,18 @@ REL = {
     "10": ["C01", "C02", "C03", "C05", "C06", "C09", "C16", "C17", "C19", "C20", "C04", "C14", "C15"],
     "11": ["C16", "C15", "C03", "C01", "C06", "C10"],
     "12": ["C13"],
+    "13": ["C01", "C02", "C09", "C05", "C03", "C15"],
+    "14": ["C06", "C07", "C08", "C03", "C15"],
+    "15": ["C06", "C20", "C03", "C09", "C15"],
+    "16": ["C04", "C05", "C20", "C03", "C15"],
+    "17": ["C10", "C11", "C12", "C03", "C15"],
+    "18": ["C12", "C10", "C11", "C18", "C15"],
+    "19": ["C19", "C17", "C20", "C03", "C15"],
+    "20": ["C19", "C20", "C03", "C16", "C15"],
+    "21": ["C17", "C16", "C03", "C02", "C06", "C19", "C15"],
+    "22": ["C15", "C16", "C03"],
+    "23": ["C13"],
+    "24": ["C13"],
 }
 
 
@@ -28,22 +40,19 @@ def sh(cmd, **kw):
 ONLY = [x for x in os.environ.get("ONLY", "").split(",") if x]
 
 
-def main():
-    ks = sys.argv[1:] or sorted(REL, key=int)
+def one(k):
     rows = []
-    for k in ks:
+    if True:
         patch = os.path.join(V, "harmless", k, "patch.diff")
-        inplace = k == "12"   # the harness binary links /repo/deploy
-        tree = "/repo" if inplace else "/tmp/harmlesswt_%s" % k
-        if inplace:
-            if sh("git -C /repo status --porcelain --untracked-files=no").stdout.strip():
-                print("refusing: /repo dirty"); return 2
-        else:
-            sh("git -C /repo worktree remove --force %s" % tree)
-            sh("git -C /repo worktree add -q --detach %s HEAD" % tree)
+        inplace = False   # scratch trees get their own harness binary, linked against that tree's deploy/
+        tree = "/tmp/harmlesswt_%s" % k
+        sh("git -C /repo worktree remove --force %s" % tree)
+        sh("git -C /repo worktree add -q --detach %s HEAD" % tree)
         r = sh("git -C %s apply --binary %s" % (tree, patch))
         if r.returncode:
-            rows.append((k, "-", "PATCH-DOES-NOT-APPLY", r.stdout[:200])); print(rows[-1]); continue
+            rows.append((k, "-", "PATCH-DOES-NOT-APPLY", r.stdout[:200])); print(rows[-1])
+            sh("git -C /repo worktree remove --force %s" % tree)
+            return rows
         for prop in (ONLY or REL[k]):
             t0 = time.time()
             c = sh("./check %s quick" % prop, cwd=V, env=dict(os.environ, VERIF_REPO=tree))
@@ -51,10 +60,17 @@ def main():
             det = [l.strip()[:120] for l in c.stdout.splitlines() if "failing input" in l or "no longer checks" in l or l.startswith("NOTE")]
             rows.append((k, prop, "ok" if c.returncode == 0 else "ALARM", (last[-1] if last else "")[:120] + " " + "; ".join(det[:2])[:300] + " [%.0fs]" % (time.time() - t0)))
             print(rows[-1], flush=True)
-        if inplace:
-            sh("git -C /repo checkout -- .")
-        else:
-            sh("git -C /repo worktree remove --force %s" % tree)
+        sh("git -C /repo worktree remove --force %s" % tree)
+        sh("rm -rf %s/.work/*-alt-tmp_harmlesswt_%s %s/.work/*-alt-tmp_harmlesswt_%s.lock" % (V, k, V, k))
+    return rows
+
+
+def main():
+    from concurrent.futures import ThreadPoolExecutor
+    ks = [a for a in sys.argv[1:] if not a.startswith("--")] or [k for k in sorted(REL, key=int) if os.path.exists(os.path.join(V, "harmless", k, "patch.diff"))]
+    jobs = [int(a.split("=")[1]) for a in sys.argv[1:] if a.startswith("--jobs=")] or [1]
+    with ThreadPoolExecutor(jobs[0]) as ex:
+        rows = [r for rs in ex.map(one, ks) for r in rs]
     with open(os.path.join(V, "harmless", "RESULTS.md"), "a") as f:
         f.write("\n## run %s\n\n| patch | check | verdict | detail |\n|---|---|---|---|\n" % time.strftime("%Y-%m-%d %H:%M"))
         for r in rows:
